@@ -1325,8 +1325,9 @@ def run_tables(ctx: C.Ctx) -> None:
     if ctx.driver is None:
         return
     d = data()
-    lines = ["tab.glyphcount", "tab.enccount"]
-    exp = [str(len(d["gl"])), str(len(d["enc"]))]
+    lines = ["tab.glyphcount", "tab.enccount", "tab.facts"]
+    exp = [str(len(d["gl"])), str(len(d["enc"])),
+           "glyph-values-nonempty=true rows-resolve=true rows-judged=true empty-name-absent=true"]
     for k in sorted(d["fm"]):
         lines.append("tab.metrics " + name_arg(("s", k)))
         exp.append(" ".join("%x:%d" % (ord(ch), w) for ch, w in sorted(d["fm"][k].items())) or "-")
